@@ -424,6 +424,8 @@ class C06Check(core.Check):
             outs = []
             for hs in scenario['string_seeds']:
                 env = dict(os.environ, PYTHONHASHSEED=str(hs), PYTHONWARNINGS='ignore')
+                if core.REPO != '/repo':
+                    env['PYTHONPATH'] = core.REPO
                 proc = subprocess.run(['/venv/bin/python', '-c', STRING_SCRIPT % {'simpath': os.path.join(core.VERIF_ROOT, 'sim')}],
                                       input=json.dumps({'G': scenario['G'], 'S': scenario['S'], 'gnames': gnames, 'snames': snames}),
                                       capture_output=True, text=True, env=env, timeout=100)
